@@ -344,7 +344,9 @@ func (g *Gen) step(fn *ssa.Function, st *State, in ssa.Instruction) {
 			}
 		}
 		if base.Kind == "fieldcell" {
-			g.regs[x] = Val{Kind: "fieldcell", Cell: base.Cell, Idx: base.Idx + "." + fmt.Sprint(x.Field), Ty: x.Type()}
+			// (a function-typed field of a nested struct - ops.files.createTempFn - is governed by the
+			// behaviour spec of the struct that declares it)
+			g.regs[x] = Val{Kind: "fieldcell", Cell: base.Cell, Idx: base.Idx + "." + fmt.Sprint(x.Field), Ty: x.Type(), Obj: fieldSpecName(x.X.Type(), x.Field)}
 			break
 		}
 		if base.T != "" && (base.Kind == "opaque" || base.Kind == "err" || base.Kind == "int") {
